@@ -47,6 +47,15 @@ SAFE_MARKERS = {
     "minijinja::filters::builtins::tojson::{closure#1}": "HTML-safe JSON (C16.T1)",
     "minijinja_contrib::globals::lipsum": "documented to return markup when html=true; text is generated, not user data",
 }
+# functions that may re-mark their result as safe because the input was (StringInput::preserve_safety): the transform
+# can only delete characters, change letter case or insert constant whitespace - it cannot turn escaped text into markup
+SAFETY_PRESERVERS = {
+    "minijinja::filters::builtins::upper": "case mapping: entity names are case-changed (`&LT;` is not a tag either)",
+    "minijinja::filters::builtins::lower": "case mapping",
+    "minijinja::filters::builtins::capitalize": "case mapping of the first character",
+    "minijinja::filters::builtins::trim": "removes characters from both ends",
+    "minijinja::filters::builtins::indent": "inserts spaces after line breaks",
+}
 RAW_ACCESSORS = ("minijinja::value::argtypes::StringInput::as_str", "minijinja::value::Value::as_str",
                  "minijinja::value::Value::to_str")
 ESCAPERS = ("minijinja::value::argtypes::StringInput::format", "minijinja::vm::state::State::format",
@@ -360,6 +369,20 @@ def run(ctx):
                    f.where(c.bb))
     ctx.floor("C02.S2 write sites in the choke point", n2, 12)
 
+    # ---- S9: who may carry the safe flag over.  `preserve_safety(output)` marks `output` safe whenever the *input* was
+    # safe; that is only sound for transforms that cannot produce markup from escaped text.  A decoding transform
+    # (striptags turns `&lt;` back into `<`) must not be among its callers.
+    PRES = "minijinja::value::argtypes::StringInput::preserve_safety"
+    n9 = 0
+    for f_, bb_, how_ in query.fn_refs(prog).get(PRES, []):
+        n9 += 1
+        root_ = f_.root or f_.path
+        ctx.ob("C02.S9.safety-is-carried-over-only-by-reviewed-transforms", root_, root_ in SAFETY_PRESERVERS,
+               SAFETY_PRESERVERS.get(root_) or
+               "%s re-marks its result as safe when its input was safe, but it is not a reviewed markup-neutral transform: if it "
+               "can produce `<`, `>`, quotes from escaped text (entity decoding, unescaping) the raw data reaches the output"
+               % root_, f_.where(bb_))
+    ctx.floor("C02.S9 callers of preserve_safety", n9, 4)
     # ---- S3 / S4
     refs = query.fn_refs(prog).get(SAFE, [])
     ctx.floor("C02.S3 from_safe_string sites", len(refs), 14)
